@@ -16,7 +16,7 @@ reg('C04', 'exploration',
     'runtime monitor: real Block1014/block_1014 driven over enumerated write histories, output compared with a reference blocker',
     'Every residue (quick: 100, thorough: all 1012) x three internal situations x every next write length 0..3036 is '
     'executed on the real blocker under a line-step budget and its finalised file compared byte-for-byte with an '
-    'independent reference (position-coded content); plus seeded long histories and the one-shot function. Held on the '
+    'independent reference (position-coded content, and a second stream with stretches of the fill byte); plus single writes of 64 KiB .. 1 MiB including exact block fits, seeded long histories and the one-shot function. Held on the '
     'executions produced; the residue x length sub-space is enumerated completely in the thorough tier.',
     'Trusts vmon/ref/blocking.py (validated against the mciipm docstring example) and io.BytesIO.')
 
@@ -24,7 +24,7 @@ reg('C05', 'fault_enumeration',
     'runtime monitor: real Unblock1014/unblock_1014 driven over enumerated read histories and trailer/truncation faults, compared with a payload-stream model',
     'Every residue of bytes already delivered (quick: 100, thorough: all 1012) x three chunkings x every next read size '
     '1..2024 on 1-, 2-, 3- and 5-block files (one with a short last chunk), read() with no size at every residue, seeded '
-    'long sequences; unblock_1014 is fed every truncation length of 1..4-block files and every wrong value of every trailer '
+    'long sequences (size 0 and reads up to 2 MiB included), files of 70, 200 and 2 300 blocks with unsized reads on them; unblock_1014 is fed every truncation length of 1..4-block files and every wrong value of every trailer '
     'byte. Each returned slice is compared with the reference payload stream. Held on the executions produced.',
     'Trusts vmon/ref/blocking.py and io.BytesIO. Read sizes 0/negative are outside the statement; read(None) judged only if it returns.')
 
@@ -41,13 +41,14 @@ reg('C09', 'fault_enumeration',
     'For each generated VBS, blocked, IPM-VBS and IPM-blocked file every truncation offset 0..len(file) is executed '
     '(exhaustive per file): the records yielded must be exactly those wholly inside the surviving payload stream and the '
     'terminating event must be end-of-iteration or MciIpmDataError. Files are sized so that prefixes and record ends fall on '
-    'and around block boundaries. Held on the executions produced.',
+    'and around block boundaries, with records up to 6 000 bytes; one cut in five arrives through a non-seekable stream, some through disk files. Held on the executions produced.',
     'Trusts vmon/ref/blocking.py; for IPM files the expected dicts are the real decoder output on the complete records.')
 
 reg('C11', 'exploration',
     'runtime monitor: every finalisation history (close / with-exit, nested real with-blocks) played on real writers; file snapshots after each finalisation compared, then read back',
     'All finalisation histories of length 1..4 (quick) / 1..5 (thorough; plus every length-6 history of the first two) over {close(), '
-    'context-manager exit, context-manager exit through an exception} x {VbsWriter, '
+    'context-manager exit, exit through an Exception, exit through a BaseException}, each realised with nested with-blocks and with '
+    'one with-block per exit entered in turn, x {VbsWriter, '
     'IpmWriter} x {VBS, 1014} x {BytesIO, real file} x 7 record sets are enumerated. The file after the whole history must '
     'equal the file after the first finalisation and read back, by the real and by the reference reader, as the records '
     'written. Exhaustive up to the history bound; held on the executions produced.',
@@ -58,7 +59,7 @@ reg('C15', 'exploration',
     'All digit strings of length 0..5 (quick) / 0..7 (thorough) are enumerated in each of three interpreter modes (normal, '
     '-O, -OO; the mode is confirmed from sys.flags.optimize inside the child): computed digit equals the reference digit, '
     'validate(add(s)) accepts, and every single-digit substitution and adjacent transposition (other than 0/9) of every valid '
-    'number up to payload length 4 / 5, and of 2 000 / 50 000 seeded long numbers with separators, is rejected.',
+    'number up to payload length 4 / 5, and of 2 000 / 50 000 seeded numbers of 6..200 digits with separators, is rejected.',
     'Trusts vmon/ref/cards.py Luhn. accepts = returns (not False); rejects = raises or returns False.')
 
 reg('C13', 'exploration',
@@ -66,7 +67,7 @@ reg('C13', 'exploration',
     'PIN lengths 4..12 x PAN lengths 13..19 x seven class flavours are enumerated with seeded digits (20 / 150 repetitions, each '
     'digit value forced at each position), supplied fills {1, 2^63, 2^64-1, seeded} and none, TDES keys of 16/24 and AES keys '
     'of 16/24/32 bytes. Clear block, PIN recovered from clear bytes, ciphertext and PIN recovered from ciphertext are each '
-    'compared with the reference. Freshness: 2 000 / 20 000 format-4 fills never repeat and cover all 64 bit positions.',
+    'compared with the reference. Freshness: 2 000 / 20 000 format-4 fills never repeat and cover all 64 bit positions; blocks built in four forked children share no fill.',
     'Trusts vmon/ref/crypto.py (FIPS known answers; cross-checked against the cryptography package at setup) and vmon/ref/cards.py. '
     'A finite run cannot decide randomness, only non-repetition and width. Fill 0 is outside the quantifier.')
 
@@ -74,7 +75,7 @@ reg('C14', 'exploration',
     'runtime monitor: real PVV/KCV/key-combination functions compared with a from-scratch TDES reference; second-scan cases constructed backwards from chosen ciphertexts; metamorphic permutation/duplicate checks',
     'PIN 4..12 x PAN 13..19 x key lengths 8/16/24 x key index 0..9 through calculate_pvv and both mix-in routes; cases built '
     'backwards from a chosen ciphertext so that the second decimalisation scan supplies exactly 0,1,2,3 and 4 digits (a run '
-    'missing any d is inconclusive); component lists of 2..5 parts of 16 and 24 bytes with every permutation and a duplicated '
+    'missing any d is inconclusive); component lists of 2..5 parts of 8, 16 and 24 bytes with every permutation and a duplicated '
     'component; KCV lengths 1..16; encrypted zone keys under 16/24-byte master keys.',
     'Trusts vmon/ref/crypto.py and vmon/ref/cards.py; cryptography is used only to search for plaintexts, never to judge.')
 
@@ -82,7 +83,7 @@ reg('C01', 'exploration',
     'runtime monitor: real dumps/loads round trip observed over generated configurations, 72 single-byte codecs, both bitmap renderings and length sweeps; relation checked on every returned dict',
     'Single-element messages at every boundary length (thorough: every length 1..99 / 1..999) of every variable element, every '
     'element alone with numeric extremes and date-window edges, and seeded subsets (PDS keys, raw carriers, ICC, DE43, PAN '
-    'processors, bits above 64) under the packaged configuration, variants of it and generated configurations; quick uses 8 '
+    'processors, bits above 64, hex-like binary ICC content) under the packaged configuration, variants of it, a hand-written configuration with every rare attribute combination, generated configurations (half with shuffled key order) and configurations edited in place between two calls; quick uses 8 '
     'codecs, thorough every single-byte codec of the standard library. Every original key must come back equal (masked / '
     'prefix for PAN processors) with only documented derived extras. Held on the executions produced.',
     'Trusts the message domain definition in DESIGN.md section 4 and the python codecs.')
@@ -90,7 +91,7 @@ reg('C01', 'exploration',
 reg('C02', 'exploration',
     'runtime monitor: real dumps compared byte-for-byte with an independent reference encoder, real loads of reference-encoded bytes compared key-for-key with a strict reference decoder, refusal of over-long values observed',
     'Every single bit and every pair of bits of the packaged configuration x {latin_1, cp500} x {raw, hex} is enumerated; the '
-    'C01 workload is reused and widened on the encode side (short fixed text, numbers as strings, ISO date strings, empty/None '
+    'C01 workload is reused and widened on the encode side (short fixed text, numbers as strings, decimals in exponent form, ISO date strings, empty/None '
     'values). Decode is judged on bytes produced by the reference encoder so a symmetric error cannot cancel. Over-long '
     'variable values (100..999 / 1000..5000 characters, text and bytes) must be refused while the longest representable '
     'value still encodes. Held on the executions produced.',
@@ -107,7 +108,7 @@ reg('C12', 'exploration',
 reg('C16', 'exploration',
     'runtime monitor: real mask() over every length and mask character; real loads / IpmReader under configurations that place the PAN or PAN-PREFIX processor on each variable element, every returned value searched for the clear card number',
     'mask(): every card-number length 10..40 x digit / arbitrary-character numbers x every printable ASCII mask character plus '
-    'seeded Latin-1 ones. Decode: the processor is placed on each variable-length text element of the packaged configuration in '
+    'seeded Latin-1 ones. Decode: the processor is placed on each variable-length (and each wide fixed-width) text element of the packaged configuration in '
     'turn (and on generated configurations), latin_1 / cp500 / cp037, through loads, IpmReader and blocked IpmReader; the '
     'element must come back masked / as its nine-character prefix and the clear number (whole, without check digit, middle '
     'digits; as text, bytes or hex) must occur in no value of the returned dict. Held on the executions produced.',
@@ -118,7 +119,7 @@ reg('C17', 'exploration',
     'Message lists are sized so blocked files have exactly 1,2,...,12 blocks (each enumerated) and 50/53/64, first record small, '
     'large, spanning the first block boundary, longer than the 2 500-byte sample, and a shape with 0x40-character text everywhere '
     'except under offset 1012; MTI digits varied, x {latin_1, ascii, cp1252, cp500, cp037, cp1140} x {VBS, '
-    '1014}. Invalid classes: every length 0..23, the 24-byte header, first length max / max+1, every bit 2..128 alone in the '
+    '1014}. Invalid classes: every length 0..23, the 24-byte header, first length max / max+1 (also with the configured maximum changed at run time to 24, 3 000 and 9 000), every bit 2..128 alone in the '
     'first bitmap. Unblocked files with 0x40 0x40 at bytes 1012-1013 are not judged on the blocking answer.',
     'Files come from the real IpmWriter under the packaged configuration; vmon/ref/codec.py is used only to size them.')
 
@@ -126,10 +127,10 @@ reg('C07', 'fault_enumeration',
     'runtime monitor with a sys.monitoring line-step budget: real loads / VbsReader / IpmReader / extraction tools driven over structurally enumerated faults; outcome class and raise site observed for every input',
     'For 20 (quick) / 400 (thorough) well-formed bases covering every field kind, four codecs, both bitmaps, packaged and '
     'generated configuration: every structural byte (bitmap, length prefixes, PDS tags and sub-lengths, TLV tags and lengths) x '
-    'all 256 values, every length field rewritten to negative / zero / at-over-far-over spellings, truncation at every offset, '
+    'all 256 values, every length field rewritten to negative / zero / at-over-far-over spellings, the content of every typed element replaced by 35 special words (NaN, Infinity, exponents, impossible dates), truncation at every offset, '
     'seeded multi-point mutation, random byte strings; the same at file level (record prefixes, block trailers, terminator, '
     'embedded message faults) through both readers and both extraction tools in-process, and the two extraction commands as real '
-    'processes (no traceback on stderr). Non-termination is decided as bounded '
+    'processes (no traceback on stderr); CPU time for 8 MB vs 1 MB of the same records must scale under 24x. Non-termination is decided as bounded '
     'progress (20 000 + 100 executed cardutil lines per input byte), not wall-clock.',
     'Bounded progress stands in for termination (worst legitimate path measured < 10 lines/byte). vmon/ref/codec.py lays out the bases. '
     'A hang inside C code that emits no line events would only trip the per-shard wall-clock watchdog (inconclusive).')
@@ -138,7 +139,7 @@ reg('C08', 'fault_enumeration',
     'runtime monitor: accept/reject decision and returned dict of real loads bracketed by two independent reference decoders (strict subset, lenient superset) over enumerated neighbours of valid messages and constructed overlaps',
     'For 160 (quick) / 3 000 (thorough) valid bases (packaged, variant and generated configurations; latin_1, cp500, cp864, '
     'ascii; both bitmaps): every length-prefix digit replaced by sign/space/underscore/letter/every digit/non-ASCII digits, '
-    'every prefix rewritten (negative spellings, 0, one short, one over, message length, maximum), each of the 128 bitmap bits '
+    'every prefix rewritten (negative spellings, 0, one short, one over, message length, maximum), hex bitmaps respelled (0x, signs, blanks, underscores), utf-8 among the codecs, 25 fresh valid messages per base, each of the 128 bitmap bits '
     'flipped, every variable element emptied (must still be accepted), trims/extensions, multi-point mutation; plus thousands of '
     'constructed messages that a negative-length-tolerant decoder would tile exactly. strict accepts => must accept with that '
     'dict; lenient rejects => must reject; in between, accepted readings must equal the lenient element values.',
@@ -146,7 +147,7 @@ reg('C08', 'fault_enumeration',
 
 reg('C10', 'fault_enumeration',
     'runtime monitor: real IpmReader and the extraction tool run on files whose k-th record carries an injected fault; records delivered, exception attributes and the operator line observed for every k',
-    'n = 1..10 (quick) / 1..12, 17, 25, 40 (thorough) records x every position k x nine fault kinds (truncated record, oversized '
+    'n = 1..10 (quick) / 1..12, 17, 25, 40 (thorough) records x every position k x eight ways of walking the reader x nine fault kinds (truncated record, oversized '
     'length, undecodable MTI, unknown bitmap bit, bad field length, bad typed value, bad PDS content, bad ICC content, trailing '
     'bytes) x {VBS, 1014} x {latin_1, cp500}: exactly k-1 records equal to the strict reference decode, MciIpmDataError with '
     'record_number == k and binary_context_data == prefix + raw bytes of record k, and "Error detected in record k" printed by '
@@ -159,7 +160,7 @@ reg('C06', 'exploration',
     'codecs), VBS and 1014, packaged / variant / generated configurations, three writer APIs: file bytes equal the reference '
     'framing of the reference encodings, and the read-back list satisfies the C01 relation element-wise. Isolation: 2..4 reader '
     'and writer programs (some readers hit an injected fault) driven under seeded schedules at operation granularity, and 8 '
-    'threads with a 1 microsecond switch interval; each instance\'s trace (records, record_number, last_record, error context, '
+    'threads with a 1 microsecond switch interval; two round trips of more than 1 and 2 MiB; throwaway configuration copies; each instance\'s trace (records, record_number, last_record, error context, '
     'file bytes) must equal its solo trace. The run is inconclusive unless thread alternations were actually observed.',
     'Trusts vmon/ref/codec.py and vmon/ref/blocking.py. Each thread owns its files and message objects. Per-thread step counters.')
 
@@ -167,7 +168,7 @@ reg('C18', 'exploration',
     'runtime monitor: real IpmParamReader and the CSV tool run on synthetic extract files built by placing generated column values at configured positions; returned dicts/CSV compared with the generated values',
     'Extract files with 1..6 tables (the four packaged layouts and generated contiguous / gapped / single-column layouts, including '
     'table ids that differ only in their last characters), random index assignments (also two sub-ids for one table), 0..40 '
-    'rows per table interleaved, unindexed / unconfigured noise rows and per-table trailers, x {compressed, expanded} x {latin_1, '
+    'rows per table interleaved (some trimmed part-way through a column, some behind 3 000 rows of another table), unindexed / unconfigured noise rows and per-table trailers, x {compressed, expanded} x {latin_1, '
     'cp500} x {VBS, 1014}, every table of every file requested through the class or the CSV tool; compressed and expanded must '
     'agree on every column; missing index trailer / unconfigured table must raise MciIpmDataError.',
     'Trusts vmon/ref/param.py (validated against the literal rows in the repository tests), vmon/ref/blocking.py and the csv module.')
@@ -177,7 +178,7 @@ reg('C19', 'exploration',
     'All 6 ordered pairs of {latin_1, cp500, cp037} x {vbs,1014}^2 for mci_ipm_encode and mci_ipm_param_encode, both fixed '
     'directions x {blocked, unblocked} for mideu convert and paramconv, 12 (quick) / 150 (thorough) repetitions with fresh '
     'message lists (PDS entries, raw carriers, binary DE55, typed elements, all element subsets) and arbitrary-byte parameter '
-    'records: record count, order and values preserved (DE55 byte-identical), output well blocked, and the return conversion '
+    'records, one input of more than 1 MiB per tool and runs with the documented default arguments: record count, order and values preserved (DE55 byte-identical), output well blocked, and the return conversion '
     'reproduces the input file byte for byte.',
     'Trusts vmon/ref/codec.py, vmon/ref/blocking.py; the three codecs are checked to be Latin-1 bijections at run time. For the '
     'legacy converter PDS data are library-packed (it re-packs PDS with the default configuration).')
@@ -187,7 +188,8 @@ reg('C20', 'exploration',
     '1 200 (quick) / 20 000 (thorough) tables of 1..50 (thorough ..400) rows over every supplied column of the configured output '
     'list (MTI, 28 data elements, 6 PDS columns): all columns, subsets, PDS only, PDS with other elements, cells with commas, '
     'quotes, leading/trailing/only spaces, 0 and maximum numbers, PDS cells whose packed length crosses the 999-character carrier '
-    'boundary, dates across the two-digit-year window (plus a class of '
+    'boundary, words that tooling treats specially (NULL, None, nan, TRUE, 007, ...), space-heavy unblocked EBCDIC layouts, '
+    'dates across the two-digit-year window (plus a class of '
     'non-canonical date spellings compared after normalisation) x {latin_1, cp500, cp037} x {blocked, unblocked}.',
     'Trusts the csv module. Derived/output-only columns, DE48 together with PDS columns, and cells with line breaks or control '
     'characters are outside the statement.')
